@@ -781,7 +781,9 @@ namespace awkward {
     return std::make_shared<ByteMaskedArray>(identities,
                                              parameters_,
                                              nextmask,
-                                             content_.get()->carry(carry, allow_lazy),
+                                             // an option-type node must not directly contain
+                                             // the IndexedArray of a lazy carry
+                                             content_.get()->carry(carry, false),
                                              valid_when_);
   }
 
